@@ -85,6 +85,11 @@ def ops_of(body, what):
     if len(stack) != 1 or stack[0] or stmt_temps:
         for g in reversed(stack[0]):
             ops.append(f"Rel {g}")
+    # fail closed: every lock acquisition in the text must have been understood, and no other locking primitive may occur
+    if len(re.findall(r"\.lock\(", body)) != sum(1 for o in ops if o.startswith("Acq ")):
+        raise TranslateError(f"{what}: a .lock() call of an unknown shape (only `<mutex>.lock().unwrap()` is understood)")
+    if re.search(r"try_lock|\.read\(\)\s*\.unwrap|\.write\(\)\s*\.unwrap|RwLock|Condvar|\bdrop\(|mem::drop", body):
+        raise TranslateError(f"{what}: a synchronisation primitive or an explicit drop the protocol model does not know")
     return ops
 
 
@@ -107,6 +112,12 @@ def main():
     want = ["GetCandidates", "GetProperCandidates", "GetTankanCandidates", "UpdateFrequency", "RegisterWord", "GetAlphabeticCandidate"]
     if [h[0] for h in handlers] != want:
         raise TranslateError(f"{METHOD}: handlers {[h[0] for h in handlers]} (expected {want})")
+    # channels are unbounded std mpsc channels (a send never blocks): anything else is a shape the concurrency model does not know
+    for src_name, src_text in ((MAIN, mainrs), (METHOD, method)):
+        if re.search(r"sync_channel|SyncSender|crossbeam|tokio::sync::mpsc|flume|\bbounded\(", src_text):
+            raise TranslateError(f"{src_name}: a bounded or foreign channel; the concurrency model assumes unbounded std::sync::mpsc channels whose send never blocks")
+    if len(re.findall(r"mpsc::channel\(\)", mainrs)) != len(re.findall(r"channel\(", mainrs)):
+        raise TranslateError(f"{MAIN}: a channel constructor other than std::sync::mpsc::channel()")
     # background tasks: every spawn in main.rs whose closure contains a loop
     tasks = []
     for m in re.finditer(r"(tokio::spawn\(async move|tokio::task::spawn_blocking\(move \|\||std::thread::spawn\(move \|\|)\s*\{", mainrs):
@@ -132,7 +143,7 @@ def main():
     fops = []
     cur = {"path": None, "tmp_path": None}
     which = None
-    for m in re.finditer(r"let (\w+) = dir\.join\(([^;]*)\);|File::create\(&?(\w+)\)|(file\.write_all\(|writer\.write_all\()|fs::rename\(&?(\w+), &?(\w+)\)|USER_FREQUENCY_NAME|USER_DICTIONARY_NAME", body):
+    for m in re.finditer(r"let (\w+) = dir\.join\(([^;]*)\);|File::create\(&?(\w+)\)|(file\.write_all\(|writer\.write_all\()|fs::rename\(&?(\w+), &?(\w+)\)|fs::remove_file\(&?(\w+)\)|USER_FREQUENCY_NAME|USER_DICTIONARY_NAME", body):
         t = m.group(0)
         if t == "USER_FREQUENCY_NAME":
             which = "Freq"
@@ -153,6 +164,15 @@ def main():
         elif m.group(5):
             a, b = m.group(5), m.group(6)
             fops.append(f"FRename {('Tmp' if 'tmp' in a else 'Fin') + which} {('Tmp' if 'tmp' in b else 'Fin') + which}")
+        elif m.group(7):
+            fops.append(f"FRemove {('Tmp' if 'tmp' in m.group(7) else 'Fin') + which}")
+    # fail closed: any other file-system call in the function is a shape this translator does not know
+    known = {"fs::create_dir_all", "fs::rename", "fs::remove_file", "File::create", "fs::File"}
+    for m in re.finditer(r"\b(fs|File|OpenOptions|io)::(\w+)", body):
+        if m.group(0) not in known:
+            raise TranslateError(f"{PREF}: save_user_dictionary uses {m.group(0)}, which the crash model does not know")
+    if re.search(r"\.set_len\(|\.seek\(|\.sync_|\.flush\(|hard_link|symlink", body):
+        raise TranslateError(f"{PREF}: save_user_dictionary uses a file operation the crash model does not know")
     if not fops:
         raise TranslateError(f"{PREF}: no file operation recognised in save_user_dictionary")
     out = ["From Chokan Require Import Base.Str Server.Protocol.", ""]
